@@ -1,115 +1,74 @@
 (** C43 — v1 database/retention-policy names resolve to one bucket.  Property theorems only.
 
     Vocabulary (Model/C43.v): [run bk base ops] is the state of the DBRP mapping service
-    after the operation history [ops] (Create / Update / Delete / DeleteBucket, any length)
-    started on the bucket table [bk] with mapping ids generated from [base];
-    [live st id r]: the mapping bucket holds record [r] under [id]; [dfl st]: the default
-    bucket; [find_many st f] = FindMany with filter [f]; [frp o d rp] = {org, db, rp},
-    [fdef o d] = {org, db, default=true} (the v1 look-up with an empty retention policy),
-    [fod o d] = {org, db}.
+    after the operation history [ops] (Create / Update / Delete / DeleteBucket, any length,
+    ANY ids — physical, virtual or unknown) started on the bucket table [bk] with mapping
+    ids generated from [base]; [live st id r]: the mapping bucket holds record [r] under
+    [id]; [dfl st]: the default bucket; [find_many st f] = FindMany with filter [f];
+    [frp o d rp] = {org, db, rp}, [fdef o d] = {org, db, default=true} (the v1 look-up with
+    an empty retention policy), [fod o d] = {org, db}.
 
-    Hypotheses of the [_partial] theorems:
-      [wf_bk bk base]  — bucket ids lie below the first generated mapping id (ids are unique
-                         across buckets and mappings, as with the snowflake generator);
-      [Forall (legal base) ops] — no Update targets a bucket id, i.e. a VIRTUAL mapping.
-    The FULL statements (for all histories) are refuted by the faithful model and by the
-    real code: see the [_refuted] theorems; the counterexamples are hand-picked cases of the
-    driver and are listed in findings.d/C43.json. *)
+    The only hypothesis is [wf_bk bk base]: bucket ids lie below the first generated mapping
+    id (ids are unique across buckets and mappings, as with the snowflake generator).
+
+    History: before the two repairs recorded in findings.d/C43.json (status fixed) the
+    statements 1c, 2 and 6 were refuted by the faithful model and by the real code (a virtual
+    mapping listed next to a physical one of the same (db, rp); Update of a virtual mapping
+    storing an un-indexed default record; nil dereference in FindMany).  The model now
+    mirrors the repaired code; the former counterexamples are the Examples at the end and
+    hand-picked regression cases of the driver. *)
 From Verif Require Import Base.Prelude Model.C43 Proofs.C43_base Proofs.C43_inv Proofs.C43 Proofs.C43_find.
 Local Open Scope N_scope.
 
-(** 1. Each (org, database, retention policy) resolves to at most one bucket.
-    FULL statement: for all histories, every FindMany listing contains at most one mapping
-    per (org, db, rp).  Refuted for the {org, db} listing (theorem 1c); proved: (1a) at most
-    one stored mapping per (org, db, rp), and (1b) the look-up FindMany{org, db, rp} — the
-    one the v1 write/query paths use — never fails and returns at most one mapping (physical
-    or virtual), for all legal histories of any length. *)
-Theorem C43_pair_resolves_to_at_most_one_partial :
-  forall bk base ops, wf_bk bk base -> Forall (legal base) ops ->
+(** 1. Each (org, database, retention policy) resolves to at most one bucket, for all
+    histories: (1a) at most one stored mapping per (org, db, rp); (1b) the look-up
+    FindMany{org, db, rp} — the one the v1 write/query paths use — never fails and returns at
+    most one mapping (physical or virtual); (1c) the listing FindMany{org, db} contains at
+    most one mapping per (org, db, rp), virtual ones included. *)
+Theorem C43_pair_resolves_to_at_most_one :
+  forall bk base ops, wf_bk bk base ->
   (forall id1 id2 r1 r2, live (run bk base ops) id1 r1 -> live (run bk base ops) id2 r2 ->
      r_org r1 = r_org r2 -> r_db r1 = r_db r2 -> r_rp r1 = r_rp r2 -> id1 = id2 /\ r_bkt r1 = r_bkt r2) /\
   (forall o d rp, exists l, find_many (run bk base ops) (frp o d rp) = ROk l /\ (length l <= 1)%nat /\
-     forall m, In m l -> m_org m = o /\ m_db m = d /\ m_rp m = rp).
+     forall m, In m l -> m_org m = o /\ m_db m = d /\ m_rp m = rp) /\
+  (forall o d, exists l, find_many (run bk base ops) (fod o d) = ROk l /\ NoDup (map key3 l)).
 Proof.
-  intros bk base ops W L. split.
-  - exact (pair_unique bk base ops W L).
-  - intros o d rp. exact (lookup_at_most_one bk base ops o d rp W L).
+  intros bk base ops W. split; [|split].
+  - exact (pair_unique bk base ops W).
+  - intros o d rp. exact (lookup_at_most_one bk base ops o d rp W).
+  - intros o d. exact (listing_nodup bk base ops o d W).
 Qed.
-Print Assumptions C43_pair_resolves_to_at_most_one_partial.
-
-(** 1c. After two legal creates the listing of (org 1, "db") shows (db, autogen) twice, with
-    different buckets (physical id 101 -> bucket 15, virtual id 14 -> bucket 14). *)
-Theorem C43_listing_one_bucket_per_pair_refuted :
-  exists bk base ops, wf_bk bk base /\ Forall (legal base) ops /\
-  exists l m1 m2, find_many (run bk base ops) (fod 1 1) = ROk l /\ In m1 l /\ In m2 l /\
-    m_org m1 = m_org m2 /\ m_db m1 = m_db m2 /\ m_rp m1 = m_rp m2 /\ m_bkt m1 <> m_bkt m2.
-Proof.
-  exists bk_shadow, 100, ops_shadow. destruct shadow_witness as [L E]. split; [|split; [exact L|]].
-  - intros b [<- | [<- | []]]; cbn; lia.
-  - eexists; exists (M 101 1 1 0 15 false false), (M 14 1 1 0 14 false true).
-    split; [exact E|]. cbn. repeat split; auto. discriminate.
-Qed.
-Print Assumptions C43_listing_one_bucket_per_pair_refuted.
+Print Assumptions C43_pair_resolves_to_at_most_one.
 
 (** 2. Each database with at least one mapping has exactly one default mapping
-    (as reported by FindByID / the [Default] flag every read path computes from [dfl]).
-    FULL statement: for all histories.  Proved for all legal histories; refuted in general (2b). *)
-Theorem C43_exactly_one_default_per_db_with_mappings_partial :
-  forall bk base ops o d, wf_bk bk base -> Forall (legal base) ops ->
+    (as reported by FindByID / the [Default] flag every read path computes from [dfl]). *)
+Theorem C43_exactly_one_default_per_db_with_mappings :
+  forall bk base ops o d, wf_bk bk base ->
   (exists id r, live (run bk base ops) id r /\ r_org r = o /\ r_db r = d) ->
   exists id r, live (run bk base ops) id r /\ r_org r = o /\ r_db r = d /\
                is_default (run bk base ops) o d id = true /\
                forall id', is_default (run bk base ops) o d id' = true -> id' = id.
 Proof. exact one_default. Qed.
-Print Assumptions C43_exactly_one_default_per_db_with_mappings_partial.
-
-(** 2b. Updating a VIRTUAL mapping (bucket id 14) stores an un-indexed record and makes it the
-    default: database (1, "db") has two physical mappings, neither is the default in its
-    listing, the default look-up returns the un-indexed record, which the index does not know. *)
-Theorem C43_exactly_one_default_refuted :
-  exists bk base ops, wf_bk bk base /\
-  let st := run bk base ops in
-  (exists r, live st 100 r /\ r_org r = 1 /\ r_db r = 1) /\
-  (exists r, live st 101 r /\ r_org r = 1 /\ r_db r = 1) /\
-  is_default st 1 1 100 = false /\ is_default st 1 1 101 = false /\
-  find_many st (fdef 1 1) = ROk [M 14 1 1 1 14 true true] /\ ~ In (1, 1, 14) (iod st).
-Proof.
-  exists bk_ghost, 100, ops_ghost. split.
-  - intros b [<- | [<- | []]]; cbn; lia.
-  - destruct ghost_witness as [_ [E [D1 [D2 Hn]]]]. cbv zeta. repeat split; auto.
-    + eexists. split; [vm_compute; reflexivity | split; reflexivity].
-    + eexists. split; [vm_compute; reflexivity | split; reflexivity].
-Qed.
-Print Assumptions C43_exactly_one_default_refuted.
-
-(** 2c. ... and FindMany is not total: without an org filter it dereferences a nil default id. *)
-Theorem C43_findmany_total_refuted :
-  exists bk base ops, wf_bk bk base /\ find_many (run bk base ops) F0 = RPanic.
-Proof.
-  exists [B 14 2 1 1 false 0], 100, [Update 2 14 1 false true]. split.
-  - intros b [<- | []]; cbn; lia.
-  - exact ghost_panic_witness.
-Qed.
-Print Assumptions C43_findmany_total_refuted.
+Print Assumptions C43_exactly_one_default_per_db_with_mappings.
 
 (** 3. A look-up with an empty retention policy (FindMany{org, db, default=true}) returns
-    exactly the default mapping of the database, whenever the database has a mapping.
-    Proved for all legal histories (the virtual pass adds nothing next to a physical default). *)
-Theorem C43_empty_rp_returns_default_partial :
-  forall bk base ops o d, wf_bk bk base -> Forall (legal base) ops ->
+    exactly the default mapping of the database, whenever the database has a mapping
+    (the virtual pass adds nothing next to a physical default). *)
+Theorem C43_empty_rp_returns_default :
+  forall bk base ops o d, wf_bk bk base ->
   let st := run bk base ops in
   (exists id r, live st id r /\ r_org r = o /\ r_db r = d) ->
   exists id r, dget o d (dfl st) = Some id /\ live st id r /\ r_org r = o /\ r_db r = d /\
                find_many st (fdef o d) = ROk [rec2m id r true].
 Proof. exact default_lookup. Qed.
-Print Assumptions C43_empty_rp_returns_default_partial.
+Print Assumptions C43_empty_rp_returns_default.
 
 (** 4. Deleting the default mapping [id] of (o, db) removes exactly it and promotes, if the
     database still has a mapping, the one the code picks: the remaining mapping of (o, db) with
     the SMALLEST id (getFirstBut walks the (org, db) index in ascending id order); otherwise
-    the default entry is removed.  Proved for all legal histories. *)
-Theorem C43_delete_promotes_partial :
-  forall bk base ops o id r, wf_bk bk base -> Forall (legal base) ops ->
+    the default entry is removed. *)
+Theorem C43_delete_promotes :
+  forall bk base ops o id r, wf_bk bk base ->
   let st := run bk base ops in
   live st id r -> r_org r = o -> dget o (r_db r) (dfl st) = Some id ->
   let st' := run bk base (ops ++ [Delete o id]) in
@@ -121,39 +80,72 @@ Theorem C43_delete_promotes_partial :
   | None => forall id' r', live st' id' r' -> ~ (r_org r' = o /\ r_db r' = r_db r)
   end.
 Proof. exact delete_promotes. Qed.
-Print Assumptions C43_delete_promotes_partial.
+Print Assumptions C43_delete_promotes.
 
 (** 5. The default index and the (org, db) index agree with the stored mappings: a default
     entry points to a live mapping of that (org, db), which FindByID reports as default; no
-    entry means no mapping; index entries are exactly the live mappings.  Legal histories;
-    refuted in general by 2b (default entry -> un-indexed record). *)
-Theorem C43_index_consistent_partial :
-  forall bk base ops, wf_bk bk base -> Forall (legal base) ops ->
+    entry means no mapping; index entries are exactly the live mappings. *)
+Theorem C43_index_consistent :
+  forall bk base ops, wf_bk bk base ->
   let st := run bk base ops in
   (forall o d id, dget o d (dfl st) = Some id ->
      exists r, live st id r /\ r_org r = o /\ r_db r = d /\ find_by_id st o id = Some (rec2m id r true)) /\
   (forall o d, dget o d (dfl st) = None -> forall id r, live st id r -> ~ (r_org r = o /\ r_db r = d)) /\
   (forall o d id, In (o, d, id) (iod st) <-> exists r, live st id r /\ r_org r = o /\ r_db r = d).
 Proof. exact index_consistent. Qed.
-Print Assumptions C43_index_consistent_partial.
+Print Assumptions C43_index_consistent.
 
-(** The (org, db) index is kept in ascending id order without duplicates after EVERY history
-    (no legality hypothesis): this is what makes "first" = "smallest id". *)
+(** 6. FindMany is total: after any history it neither fails nor panics, for every filter;
+    and an Update addressed to a virtual mapping (a bucket id) is rejected without effect. *)
+Theorem C43_findmany_total :
+  forall bk base ops f, wf_bk bk base -> exists l, find_many (run bk base ops) f = ROk l.
+Proof. intros bk base ops f W. apply find_many_total_inv with (base := base). apply run_inv; exact W. Qed.
+Print Assumptions C43_findmany_total.
+
+Theorem C43_update_of_virtual_mapping_rejected :
+  forall bk base ops o id rp def virt b, wf_bk bk base ->
+  let st := run bk base ops in
+  find_bucket id (bks st) = Some b ->
+  update st o id rp def virt = (st, E_NOTFOUND) \/ update st o id rp def virt = (st, E_INVALID).
+Proof.
+  intros bk base ops o id rp def virt b W st Fb.
+  apply update_virtual_rejected with (base := base) (b := b); [apply run_inv; exact W | exact Fb].
+Qed.
+Print Assumptions C43_update_of_virtual_mapping_rejected.
+
+(** The (org, db) index is kept in ascending id order without duplicates after EVERY history:
+    this is what makes "first" = "smallest id". *)
 Theorem C43_index_sorted :
   forall bk base ops, idx_ok (iod (run bk base ops)).
 Proof. exact run_idx. Qed.
 Print Assumptions C43_index_sorted.
 
-(** Non-vacuity: a legal history after which database (1, "db") has two mappings, 101 is the
+(** Non-vacuity: a history after which database (1, "db") has two mappings, 101 is the
     default, and deleting it promotes 100 (the smallest remaining id). *)
 Example C43_nonvacuous :
   let bk := [B 14 1 3 0 true 0] in
   let ops := [Create 1 1 1 14 false; Create 1 1 2 14 true; Create 1 1 0 14 false] in
-  wf_bk bk 100 /\ Forall (legal 100) ops /\
+  wf_bk bk 100 /\
   dget 1 1 (dfl (run bk 100 ops)) = Some 101 /\
   dget 1 1 (dfl (run bk 100 (ops ++ [Delete 1 101]))) = Some 100 /\
   find_many (run bk 100 ops) (fdef 1 1) = ROk [M 101 1 1 2 14 true false].
 Proof.
-  cbv zeta. split; [intros b [<- | []]; cbn; lia|]. split; [repeat constructor|].
+  cbv zeta. split; [intros b [<- | []]; cbn; lia|].
   vm_compute. repeat split; reflexivity.
 Qed.
+
+(** The former counterexamples, now positive (regression cases idx 7-10 of the driver). *)
+Example C43_former_shadow_counterexample :
+  find_many (run bk_shadow 100 ops_shadow) (fod 1 1) =
+    ROk [M 100 1 1 2 15 true false; M 101 1 1 0 15 false false].
+Proof. exact shadow_fixed. Qed.
+
+Example C43_former_ghost_counterexample :
+  snd (step (run bk_ghost 100 (firstn 2 ops_ghost)) (Update 1 14 1 true true)) = E_NOTFOUND /\
+  run bk_ghost 100 ops_ghost = run bk_ghost 100 (firstn 2 ops_ghost) /\
+  find_many (run bk_ghost 100 ops_ghost) (fdef 1 1) = ROk [M 100 1 1 2 15 true false].
+Proof. exact ghost_fixed. Qed.
+
+Example C43_former_panic_counterexample :
+  find_many (run [B 14 2 1 1 false 0] 100 [Update 2 14 1 false true]) F0 = ROk [M 14 2 1 1 14 false true].
+Proof. exact ghost_panic_fixed. Qed.
